@@ -388,6 +388,27 @@ RUN_WATCHDOG_S = 15
 TIMEOUTS = 0
 
 
+class _CountingVariator:
+    """delegates everything to the algorithm's variator; records the number of offspring of every evolve() call"""
+
+    def __init__(self, base, trace):
+        self.__dict__["_base"], self.__dict__["_trace"] = base, trace
+
+    def evolve(self, parents):
+        out = self._base.evolve(parents)
+        try:
+            self._trace.events.append(("evolve", len(out)))
+        except TypeError:
+            self._trace.events.append(("evolve", None))
+        return out
+
+    def __getattr__(self, attr):
+        return getattr(self.__dict__["_base"], attr)
+
+    def __setattr__(self, attr, value):
+        setattr(self.__dict__["_base"], attr, value)
+
+
 def run_traced(name, spec, seed, size, budgets, evaluator="map", explicit=False, extreme=0.0, op_rng=None, log_frequency=None,
                injected=0, collect_steps=True, extra_kw=None, injected_evaluated=False, budget_as="int"):
     """returns (trace, algorithm, error or None)"""
@@ -466,13 +487,20 @@ def run_traced(name, spec, seed, size, budgets, evaluator="map", explicit=False,
 
             def traced_initialize(_orig=orig_init):
                 tr.inits = getattr(tr, "inits", 0) + 1          # how often the algorithm (re)built its initial state
-                return _orig()
+                r_ = _orig()
+                # from now on record how many offspring every call of the variator returns (the input of the generational
+                # step model, Model/GenStep.lean); the default variator only exists after initialize()
+                v_ = getattr(alg, "variator", None)
+                if v_ is not None and callable(getattr(v_, "evolve", None)) and not isinstance(v_, _CountingVariator):
+                    # a delegating stand-in on this algorithm only: the library's default operators are shared objects
+                    alg.variator = _CountingVariator(v_, tr)
+                return r_
             alg.initialize = traced_initialize
 
             def cb(a):
                 ex = exposed(a) if collect_steps else {}
                 tr.events.append(("step", a.nfe, {k: [tr.snap(s) for s in v] for k, v in ex.items()},
-                                  {k: len(v) for k, v in ex.items()}))
+                                  {k: len(v) for k, v in ex.items()}, len(getattr(a, "population", None) or [])))
             conds = {}
             for N in budgets:
                 tr.events.append(("run", N, alg.nfe))
